@@ -292,6 +292,40 @@ impl Property for C09 {
                 return v;
             }
         };
+        // the same valid, dated quote set with ONE quote's settlement moved by a fraction of a second
+        // (each quote stamped with its own "now"): inconsistent settlement dates, must be rejected;
+        // with ALL quotes moved by the same fraction: consistent again, must be accepted
+        if c.quotes.len() >= 2 && c.quotes.iter().all(|q| q.settle.is_some()) {
+            let nanos = 1 + (c.twin_rot as i64 * 3_906_251) % 999_999_999;
+            let victim = c.twin_rot as usize % c.quotes.len();
+            let with_fraction = |only: Option<usize>| -> Result<FXRates, pyo3::PyErr> {
+                let rates = c
+                    .quotes
+                    .iter()
+                    .enumerate()
+                    .map(|(i, q)| {
+                        let s = q.settle.map(|d| day_to_ndt(d) + chrono::Duration::nanoseconds(if only.map_or(true, |o| o == i) { nanos } else { 0 }));
+                        FXRate::try_new(CCYS[q.lhs as usize % 12], CCYS[q.rhs as usize % 12], Number::F64(q.rate.0), s).expect("fx rate")
+                    })
+                    .collect();
+                FXRates::try_new(rates, c.base.map(ccy))
+            };
+            v.label("settlement:sub-second-variants");
+            match catch(|| (with_fraction(Some(victim)).is_ok(), with_fraction(None).is_ok())) {
+                Ok((false, true)) => {}
+                Ok((one_moved_accepted, all_moved_accepted)) => {
+                    v.fail(
+                        if one_moved_accepted { "invalid quote set accepted | invalid:settlement-mix" } else { "valid quote set rejected" },
+                        format!("{:?}: quote {} settled {} ns later than the others accepted: {}; all quotes settled {} ns later accepted: {}", c.quotes, victim, nanos, one_moved_accepted, nanos, all_moved_accepted),
+                    );
+                    return v;
+                }
+                Err(p) => {
+                    v.fail(format!("FXRates::try_new | panic | {}", p.site()), p.message);
+                    return v;
+                }
+            }
+        }
         let n = nodes.len();
         v.label(intern(format!("n:{}", n)));
         // shape statistics
@@ -413,7 +447,7 @@ impl Property for C09 {
     }
 
     fn rule(&self) -> String {
-        "random labelled trees on 2-12 currencies (random recursive trees plus forced chains and stars, random relabelling over 12 codes), random orientation per quoted pair, log-uniform rates 1e-4..1e4, shuffled quote order, base in {none, any currency of the market}, optional common settlement date; about 40% of cases are then damaged on purpose (edge dropped / added, edge replaced so that a cycle plus a disconnected currency keeps the count right, pair duplicated or reverse-duplicated, settlement dates mixed, base outside the market). A union-find decides the expected verdict. Oracle for valid sets: every one of the n*n crosses is available, quoted pairs bit-exact, diagonal exactly 1, rate x inverse == 1 (1e-12), every cross == BFS path product with inversion on backward edges (1e-12), a reshuffled / re-based twin market, whose currency codes are spelled with a different mix of upper and lower case at every occurrence, agrees (1e-12), currencies outside the market are not answered; invalid sets must be rejected. Non-trivial: n >= 4 with a path of >= 3 quotes, or any invalid set.".into()
+        "random labelled trees on 2-12 currencies (random recursive trees plus forced chains and stars, random relabelling over 12 codes), random orientation per quoted pair, log-uniform rates 1e-4..1e4, shuffled quote order, base in {none, any currency of the market}, optional common settlement date; about 40% of cases are then damaged on purpose (edge dropped / added, edge replaced so that a cycle plus a disconnected currency keeps the count right, pair duplicated or reverse-duplicated, settlement dates mixed, base outside the market). A union-find decides the expected verdict. Oracle for valid sets: every one of the n*n crosses is available, quoted pairs bit-exact, diagonal exactly 1, rate x inverse == 1 (1e-12), every cross == BFS path product with inversion on backward edges (1e-12), a reshuffled / re-based twin market, whose currency codes are spelled with a different mix of upper and lower case at every occurrence, agrees (1e-12), currencies outside the market are not answered; invalid sets must be rejected; a dated valid set with one quote's settlement moved by a fraction of a second must be rejected, with all moved alike accepted. Non-trivial: n >= 4 with a path of >= 3 quotes, or any invalid set.".into()
     }
 
     fn floors(&self, tier: Tier) -> Vec<Floor> {
@@ -427,6 +461,7 @@ impl Property for C09 {
             Floor { label: "invalid:over-specified", min: n / 50 },
             Floor { label: "invalid:cycle-with-island", min: n / 100 },
             Floor { label: "invalid:settlement-mix", min: n / 50 },
+            Floor { label: "settlement:sub-second-variants", min: n / 50 },
             Floor { label: "base:none", min: n / 10 },
         ]
     }
